@@ -28,4 +28,50 @@ Print Assumptions C18_fault_43.
 Theorem C18_always_wellformed : forall cap u, response_shape (relay cap u) = true.
 Proof. exact C18_proofs.always_wellformed. Qed.
 Print Assumptions C18_always_wellformed.
+
+(* ---- tie to the code (client/protocol.py GeminiClientProtocol): the statements of coq/Equiv/EquivClient.v, re-checked here against the definitions regenerated
+   from /repo's working tree (coq/Gen); see DESIGN.md 11.8 ---- *)
+From Coq Require Import List NArith ZArith Bool.
+From NV Require Import Prelude.Str Prelude.Res Prelude.Utf8 Model.Titan Model.ClientProto Equiv.ClientGlue Gen.ClientGen.
+From NV Require Equiv.EquivClient.
+Theorem C18_code_cstep_data_tie : forall request soc db dw s d,
+  connected s = true ->
+  gen_data_received gen_header_too_long (gen_parse_header gen_set_error) gen_set_error s d
+  = cstep request soc db gen_MAX_RESPONSE_BODY_SIZE dw s (CData d).
+Proof. exact EquivClient.cstep_data_tie. Qed.
+Print Assumptions C18_code_cstep_data_tie.
+
+Theorem C18_code_cstep_lost_tie : forall request soc db cap dw url s exc,
+  (cfut s = Pending -> hdr s = true -> status s <> None) ->
+  gen_connection_lost dw url db s (option_map (app (lit "conn:")) exc) = cstep request soc db cap dw s (CLost exc).
+Proof. exact EquivClient.cstep_lost_tie. Qed.
+Print Assumptions C18_code_cstep_lost_tie.
+
+Theorem C18_code_status_known_reachable : forall request soc db cap dw evs,
+  let s := fst (crun request soc db cap dw cinit evs) in
+  cfut s = Pending -> hdr s = true -> status s <> None.
+Proof. exact EquivClient.status_known_reachable. Qed.
+Print Assumptions C18_code_status_known_reachable.
+
+
+
+(* ---- tie to the code (server/proxy.py relay): the statements of coq/Equiv/EquivMw.v, re-checked here against the definitions regenerated
+   from /repo's working tree (coq/Gen); see DESIGN.md 11.8 ---- *)
+From Coq Require Import List NArith ZArith QArith Bool.
+From NV Require Import Prelude.Str Prelude.Res Model.Bucket Model.Ip Model.Proxy Model.ServerProto Model.Session Equiv.ServerGlue Equiv.MwGlue.
+From NV Require Import Gen.MwGen.
+From NV Require Equiv.EquivMw.
+Theorem C18_code_proxy_relay_tie : forall (get : str -> callres resp) url, gen_proxy_relay get url = EquivMw.relay_spec (get url).
+Proof. exact EquivMw.proxy_relay_tie. Qed.
+Print Assumptions C18_code_proxy_relay_tie.
+
+Theorem C18_code_proxy_relay_model_partial : forall msg cap u url,
+  let g := gen_proxy_relay (fun _ => EquivMw.upstream_call msg cap u) url in
+  let m := proxy_response cap u in
+  rs_status g = rs_status m /\ rs_body g = rs_body m /\ prefixb (rs_meta m) (rs_meta g) = true /\
+  (u <> UConnectFail -> g = m).
+Proof. exact EquivMw.proxy_relay_model_partial. Qed.
+Print Assumptions C18_code_proxy_relay_model_partial.
+
+
 Close Scope N_scope.
